@@ -66,6 +66,19 @@ def gen(rng, tier):
             k = rng.choice([8, 13, 18, 23])
             s = s[:k] + rng.choice("0a_") + s[k + 1:]
         cases.append("p%d P %s" % (j, s.encode().hex()))
+    # batches through the repository (Set in one key-value transaction or one by one, then GetAll) over a real Badger:
+    # several records, keys of decreasing/increasing/equal lengths, empty keys between non-empty ones, repeated content ids
+    nb = 150 if tier == "quick" else 1500
+    for j in range(nb):
+        k = rng.choice([0, 1, 2, 2, 3, 3, 4, 5, 8])
+        recs, cids = [], []
+        for q in range(k):
+            cid = rng.choice(cids) if (cids and rng.random() < 0.1) else rid(rng, 2)
+            cids.append(cid)
+            kl = rng.choice([0, 0, 1, 3, 7, 8, 20, 64, 300])
+            recs.append("%d,%s,%s,%s" % (rng.choice([rng.randrange(1, 2**40), rng.choice(SEQS)]), hx(rid(rng, rng.randrange(3))), hx(cid),
+                                         hx(rkey(rng, kl))))
+        cases.append("b%d B %s %s" % (j, rng.choice(["tx", "tx", "one"]), ";".join(recs) if recs else "-"))
     return cases
 
 
@@ -75,6 +88,8 @@ def nontrivial(c):
         return t[5] != "-"
     if t[1] == "u":
         return t[2] != "-" and len(t[2]) >= 80
+    if t[1] == "B":
+        return t[3].count(";") >= 1
     return True
 
 
@@ -110,7 +125,8 @@ def run(rep):
             kind = c.split()[1]
             what = {"m": "encoded bytes differ from the documented layout (le64 seq | tx | cid | key)",
                     "u": "decoding differs (wrong value, wrong rejection, or panic)",
-                    "F": "textual id differs", "P": "id parsing differs"}[kind]
+                    "F": "textual id differs", "P": "id parsing differs",
+                    "B": "records stored through repository/file Set are not what GetAll returns (lost, altered or invented records)"}[kind]
             rep.violation(dict(kind="correspondence", correspondence="fsdbh codec (repository/file) vs coq/Codec.v",
                                case=c, impl=impl[k], model=model[k], what=what))
     # the property itself on the implementation: decode(encode r) = r
@@ -133,7 +149,8 @@ def run(rep):
         evaluations=len(cases) + len(rt_cases), distinct_nontrivial=distinct,
         rule="encode cases: 17 boundary sequences x 9 key lengths x 3 id patterns + random records; decode cases: random byte "
              "strings of length 0..80 (incl. 39/40/41); uuid format/parse cases (canonical, upper-case, damaged); golden "
-             "vectors from corpus/c19_golden.txt first; non-trivial = non-empty key / >=40 bytes; plus decode(encode r)=r on the implementation",
+             "vectors from corpus/c19_golden.txt first; batches of 0-8 records (empty keys, mixed key lengths, repeated content ids) "
+             "through the real file repository over a real Badger database, in one key-value transaction or one by one, then GetAll; non-trivial = non-empty key / >=40 bytes; plus decode(encode r)=r on the implementation",
         case_kinds=kinds, golden_vectors=len(gold), roundtrips_on_impl=len(rt_cases),
         traces_validated_against_impl=len(cases), impl_vs_model_mismatches=sum(1 for k in range(len(cases)) if impl[k] != model[k]),
         samples=[dict(case=cases[k][:200], impl=impl[k][:200]) for k in (0, len(gold) + 5, len(cases) - 1)],
